@@ -12,6 +12,8 @@ mod gen_regex;
 mod cmp;
 mod mon_c01;
 mod mon_c02;
+mod mon_c03;
+mod tp;
 mod mon_c04;
 mod mon_c05;
 mod mon_c06;
@@ -147,6 +149,7 @@ fn main() {
         }
         "C01" => mon_c01::run(&mut ctx),
         "C02" => mon_c02::run(&mut ctx),
+        "C03" => mon_c03::run(&mut ctx),
         "C04" => mon_c04::run(&mut ctx),
         "C05" => mon_c05::run(&mut ctx),
         "C06" => mon_c06::run(&mut ctx),
